@@ -75,6 +75,7 @@ class World:
         self.vals = {}          # token -> canonical value
         self.registry = []      # every probe object ever made (one reference each)
         self.nfresh = 0
+        self.base_nodes = 0
 
     def K(self, n, fresh=False):
         if not self.okey:
@@ -102,6 +103,15 @@ class World:
             self.vals[tok] = v
             self.registry.append(v)
         return v
+
+    def live_nodes(self):
+        """number of live Bucket/Set/BTree/TreeSet instances of the family (all four are gc-tracked)"""
+        kinds = tuple(F.cls(self.fam, k, self.impl) for k in F.KINDS)
+        n = 0
+        for o in gc.get_objects():
+            if type(o) in kinds:
+                n += 1
+        return n
 
     def extra(self):
         import collections
@@ -427,6 +437,7 @@ def _run_probe(w, build, op, n, ctx, desc, fault):
     Returns (faults counted, outcome class, state)."""
     name = op[0]
     sig = {'impl': w.impl, 'kind': w.kind, 'op': name, 'valcode': w.fam[1], 'fault': fault.name}
+    nodes0 = w.base_nodes
     t = w.build(build)
     w.current_build = build
     model = dict(w.contents(t))
@@ -520,6 +531,17 @@ def _run_probe(w, build, op, n, ctx, desc, fault):
         if bad:
             ctx.mismatch('%s (fault %d): after destroying every container references remain: %s'
                          % (desc, n, bad[:4]), dict(sig, what='refcount-end', leak=True), recoverable=False)
+        if not bad:
+            nodes1 = w.live_nodes()
+            if nodes1 != nodes0:
+                gc.collect()
+                nodes1 = w.live_nodes()
+            if nodes1 != nodes0:
+                # A leaked node that holds user objects is caught by the reference audit above.  One that
+                # holds none (an empty leaf, integer keys) is a plain memory leak on an error path, which
+                # none of the properties forbids: it is counted in the evidence, not reported.
+                ctx.count('observed:node_objects_leaked_without_user_objects:' + name, nodes1 - nodes0)
+                w.base_nodes = nodes1
     return count, outcome, state
 
 
@@ -643,6 +665,9 @@ def run_case(case, ctx, fault_cls=CmpFault, audit_refs=True):
             classes.append('height:%d' % wk.height)
             del wk
         del t0
+        if w.audit_refs:
+            gc.collect()
+            w.base_nodes = w.live_nodes()       # node objects alive while no container of this case exists
         for pi, op in enumerate(case['probes']):
             desc = 'probe %d %r on %s%s(%s, sizes %s) built by %r' % (pi, op, w.fam, w.kind, w.impl, w.sizes,
                                                                       case['build'])
